@@ -43,6 +43,10 @@ def sources(tier, seed, ctx):
         r = random.Random(seed * 61 + n)
         outs = gen.pick_outputs(r, ni, len(gs), kind=['last', 'some', 'dup', 'withinput', 'many', 'none'][n % 6])
         srcs.append({'k': 'rt' if n % 2 == 0 else 'doc', 'net': [ni, gs], 'outs': outs, 'ls': r.randrange(10**6)})
+    # deep circuits: one path longer than the interpreter's recursion limit, printed, saved, parsed back
+    for depth in ([1500] if tier == 'quick' else [1500, 4000]):
+        srcs.append({'k': 'rt', 'deep': depth, 'ls': 1 + depth})
+        srcs.append({'k': 'rt', 'deep': depth, 'ls': 3 * depth, 'rev': True})
     # every line order (TLC-enumerated permutations, Perms.tla) of fixed small documents
     import json as _json
     import os as _os
@@ -110,6 +114,8 @@ def render(doc, r):
             else:
                 ops = (sp() + ',' + sp()).join(ln['ops'])
                 lines.append(f'{ln["l"]}{sp()}={sp()}{_case_variant(r, ln["t"])}({sp()}{ops}{sp()})')
+    # blanks after the last token of a line are layout too (also after the operand-less `vdd`)
+    lines = [ln_ + ' ' * r.choice([0, 0, 0, 1, 3]) if ln_ and not ln_.startswith('#') else ln_ for ln_ in lines]
     text = '\n'.join(lines)
     if r.random() < 0.7:
         text += '\n'
@@ -119,6 +125,10 @@ def render(doc, r):
 def record(src):
     from cirbo.core.circuit import Circuit
 
+    if src.get('deep'):
+        n = src['deep']
+        src = dict(src, net=[2, [['XOR' if k % 2 else 'NOT', [2 + k, 2] if k % 2 else [max(1, 2 + k) if k else 1]] for k in range(n)]],
+                   outs=[2 + n, 2 + n // 2], labels=['x', 'y'] + [f'g{k}' for k in range(n)])
     ni, gs = src['net']
     net = (ni, [(t, list(o)) for t, o in gs])
     r = random.Random(src['ls'])
@@ -126,6 +136,10 @@ def record(src):
     if src['k'] == 'rt':
         storage = None
         c = gen.materialize(net, labels=labels, outputs=src['outs'])
+        if src.get('rev'):
+            # users before operands in storage order: renamed from the input side up, every gate moves to the end
+            for l in labels[ni:][::-1]:
+                c.rename_gate(l, l + '_')
         if r.random() < 0.4 and c.gates:
             # non-topological storage order through public renames (renamed gate moves to the end)
             victim = r.choice(list(c.gates))
